@@ -259,6 +259,8 @@ void ezc3d::ParametersNS::Parameters::write(std::fstream &f) const
     int nBlocksToNext = int(actualPos - pos-2)/512;
     if (int(actualPos - pos-2) % 512 > 0)
         ++nBlocksToNext;
+    if (nBlocksToNext > 255)
+        throw std::range_error("Parameters cannot be written: they are limited to 255 blocks of 512 bytes");
     f.write(reinterpret_cast<const char*>(&nBlocksToNext), ezc3d::BYTE);
     f.seekg(actualPos);
 
